@@ -236,8 +236,16 @@ func merge[EntityT entity.Interface](def Definition, wrapper func(e *Entity) Ent
 	// and later append and commit through it, so it must hold the operations of both branches
 	// and have the merge commit as its last commit.
 	mergedEntity, err := read[EntityT](def, wrapper, repo, resolvers, localRef)
+	if err == nil {
+		// local and remote are both valid, but put together they might not be: for instance the remote
+		// can hold operations of the local Entity again, stored in other commits
+		err = mergedEntity.Validate()
+	}
 	if err != nil {
-		return entity.NewMergeError(err, id)
+		// don't keep a broken Entity: go back to the local state
+		_ = repo.UpdateRef(localRef, localCommit)
+		return entity.NewMergeInvalidStatus(id,
+			errors.Wrapf(err, "merging the remote %s gives an invalid %s", def.Typename, def.Typename).Error())
 	}
 
 	return entity.NewMergeUpdatedStatus(id, mergedEntity)
